@@ -122,7 +122,8 @@ PROPS = {
                        "whose final state has a duplicate gets a constraint violation appended; acceptance depends on the final state only (transient duplicates between "
                        "operations are irrelevant). Tied to the code by histories biased to collisions, swaps, delete+reinsert and garbage collection of indexed rows."),
         "level_note": "Trusted: Coq kernel + vm_compute, std++; Go harness incl. its duplicate scan used as direct oracle.",
-        "rule": ("histories of 1..8 (thorough ..14) transactions on tables with a single-column and a two-column index plus an indexed non-root table; values from pools of "
+        "rule": ("histories of 1..8 (thorough ..14) transactions on a table whose index arrangement varies per history (disjoint; one index within another declared before or "
+                 "after it; two sharing a column; one column set declared twice) plus an indexed non-root table; values from pools of "
                  "3; 30% of the transactions swap the indexed values of two rows or delete a row and insert its values elsewhere. Non-trivial: an index value is written "
                  "by >= 2 operations of one transaction."),
         "tags": {1: "operation results", 2: "database contents after the transaction", 3: "reference index (GetReferences)"},
@@ -286,7 +287,8 @@ PROPS = {
                        "held), whenever no request is inside Transact, the database, the outcome every finished request received and the order in which monitors were notified "
                        "are those of executing the requests one after another in lock order; at most one request is inside the critical section; without the lock two "
                        "increments lose one (refuted by a witness). Tied to the code by 2..5 concurrent client connections against a real server with 1..2 monitors. "
-                       "Partial: rpc2's goroutines, the Go mutex and the per-monitor notification call are not modelled; the engine is C03's model."),
+                       "Partial: rpc2's goroutines and the Go mutex are not modelled; that the notification of a monitor is awaited inside the critical section (what keeps two "
+                       "notifications to one peer in commit order) is a fact generated from server/monitor.go on every run; the engine is C03's model."),
         "level_note": ("Trusted: Coq kernel + vm_compute, std++; the extractor (it recognises o.txnMutex.Lock/Unlock, o.transact, o.processMonitors, o.db.Commit, go and defer); "
                        "Go harness. Each transaction inserts a marker row, so a monitor's notification sequence names the commit order. Failed transactions have no place in "
                        "that order: the check asks that their results occur at some point of the serial execution."),
@@ -310,7 +312,8 @@ PROPS = {
         "level_note": ("Trusted: Coq kernel + vm_compute, std++; Go harness, the Go toolchain building the generated code. Known finding: the generic JSON-based Clone cannot copy "
                        "maps keyed by reals or booleans (class 21; such tables are skipped on the generic path)."),
         "rule": ("500 (thorough 6000) generated column types through the three type functions; 3 (thorough 12) schemas of 1..3 tables with 3..10 columns x 4 option "
-                 "combinations; 40 filled instances per generated struct. Non-trivial: the field is a pointer, slice or map."),
+                 "combinations; 40 filled instances per generated struct; Generate into a directory that already holds the files of another option combination (longer and "
+                 "shorter ones). Non-trivial: the field is a pointer, slice or map."),
         "tags": {1: "FieldType vs the model", 2: "FieldTypeWithEnums vs the model", 3: "NativeType vs the model", 9: "the model's decoder rejects the column"},
         "assumptions": ["column and table names do not collide after camel-casing", "enum values of strings are identifier-like (letters, digits, '-', '_')"],
     },
